@@ -27,3 +27,27 @@ theorem statistics_preconditions (cfg : Cfg) (w' : W) (h : log_tick_time_statist
   rw [statistics_guarded] at h
   cases h
   by_cases h0 : cfg.nTimes = 0 <;> by_cases h1 : cfg.nTimes > 1 <;> simp [h0, h1, pre] <;> omega
+
+/-! ### `InferenceThread.on_tick`: when a tick-time sample is recorded -/
+namespace Tick
+
+structure W where
+  tickStart : Bool := false      -- `_tick_start is not None`
+  log : List (String × Option Bool) := []
+deriving DecidableEq, Repr
+
+abbrev M := StateT W Option
+def call (n : String) : M Unit := modify fun w => { w with log := w.log ++ [(n, none)] }
+
+--%GEN_TICK%
+/-- **One tick of the inference thread, as translated from the source**: the step; a duration sample from the second
+tick on (`n1 = n + 1` exactly when a start instant is known - the first line of `Bookkeep.tick`); the start instant of the
+next sample; then the scheduler update that may log the statistics. -/
+theorem inference_tick_samples (cfg : Cfg) (b : Bool) :
+    on_tick cfg { tickStart := b } = some ((), { tickStart := true, log :=
+      [("interaction.step", none)] ++ (if b then [("tick_times.append", none)] else []) ++
+      [("time.fixed_time", none), ("log_tick_time_scheduler.update", none)] }) := by
+  cases b <;> simp [on_tick, call, bind, StateT.bind, pure, StateT.pure, get, getThe, MonadStateOf.get, StateT.get,
+    modify, modifyGet, MonadStateOf.modifyGet, StateT.modifyGet]
+
+end Tick
